@@ -97,8 +97,7 @@ impl WorkerRig {
             cluster_name: None,
             client_routes: None,
         };
-        let cluster_state =
-            ClusterState::new(metadata, &node_config, host_filter.as_deref()).await;
+        let cluster_state = ClusterState::new(metadata, &node_config, host_filter.as_deref()).await;
         let cluster_state: Arc<ArcSwap<ClusterState>> =
             Arc::new(ArcSwap::from(Arc::new(cluster_state)));
 
